@@ -19,28 +19,39 @@ def _run(coro):
     return _LOOP.run_until_complete(coro)
 
 
-def validate(**kw) -> dict[str, Any]:
-    from octave_mcp.mcp.validate import ValidateTool
+# One long-lived instance per tool for the whole process, as mcp/server.py:create_server() holds them: state that a tool
+# keeps between calls (memos, counters) is then part of what every check observes.
+_TOOLS: dict = {}
 
-    return _run(ValidateTool().execute(**kw))
+
+def _tool(name: str):
+    if name not in _TOOLS:
+        if name == "validate":
+            from octave_mcp.mcp.validate import ValidateTool as T
+        elif name == "write":
+            from octave_mcp.mcp.write import WriteTool as T
+        elif name == "eject":
+            from octave_mcp.mcp.eject import EjectTool as T
+        else:
+            from octave_mcp.mcp.compile_grammar import CompileGrammarTool as T
+        _TOOLS[name] = T()
+    return _TOOLS[name]
+
+
+def validate(**kw) -> dict[str, Any]:
+    return _run(_tool("validate").execute(**kw))
 
 
 def write(**kw) -> dict[str, Any]:
-    from octave_mcp.mcp.write import WriteTool
-
-    return _run(WriteTool().execute(**kw))
+    return _run(_tool("write").execute(**kw))
 
 
 def eject(**kw) -> dict[str, Any]:
-    from octave_mcp.mcp.eject import EjectTool
-
-    return _run(EjectTool().execute(**kw))
+    return _run(_tool("eject").execute(**kw))
 
 
 def compile_grammar(**kw) -> dict[str, Any]:
-    from octave_mcp.mcp.compile_grammar import CompileGrammarTool
-
-    return _run(CompileGrammarTool().execute(**kw))
+    return _run(_tool("compile").execute(**kw))
 
 
 def cli(args: list[str], input: str | None = None):
